@@ -89,3 +89,245 @@ Section Unfold.
     destruct (exec' s en st); try reflexivity. apply IH.
   Qed.
 End Unfold.
+
+(* ---------------------------------------------------------------- machine integers *)
+Lemma pow2_64 : pow2 64 = two64. Proof. reflexivity. Qed.
+Lemma pow2_32 : pow2 32 = two32. Proof. reflexivity. Qed.
+Lemma pow2_63 : pow2 63 = two63. Proof. reflexivity. Qed.
+Lemma pow2_31 : pow2 31 = two31. Proof. reflexivity. Qed.
+
+Lemma of_pat_64u p : of_pat 64 false p = Z.of_N (u64 p).
+Proof. reflexivity. Qed.
+Lemma of_pat_32u p : of_pat 32 false p = Z.of_N (u32 p).
+Proof. reflexivity. Qed.
+Lemma of_pat_64s p : of_pat 64 true p = s64 p.
+Proof.
+  unfold of_pat, s64. change (pow2 64) with two64. change (pow2 (64 - 1)) with two63. cbn [andb].
+  destruct (N.leb_spec two63 (p mod two64)); destruct (N.ltb_spec (p mod two64) two63); try reflexivity; lia.
+Qed.
+Lemma of_pat_32s p : of_pat 32 true p = s32 p.
+Proof.
+  unfold of_pat, s32. change (pow2 32) with two32. change (pow2 (32 - 1)) with two31. cbn [andb].
+  destruct (N.leb_spec two31 (p mod two32)); destruct (N.ltb_spec (p mod two32) two31); try reflexivity; lia.
+Qed.
+
+Lemma lor_mod_pow2 a b n : (N.lor a b mod 2 ^ n = N.lor (a mod 2 ^ n) (b mod 2 ^ n))%N.
+Proof.
+  apply N.bits_inj. intro i. destruct (N.ltb_spec i n) as [Hi|Hi].
+  - rewrite N.mod_pow2_bits_low by exact Hi. rewrite !N.lor_spec. rewrite !N.mod_pow2_bits_low by exact Hi. reflexivity.
+  - rewrite N.mod_pow2_bits_high by exact Hi. rewrite N.lor_spec. rewrite !N.mod_pow2_bits_high by exact Hi. reflexivity.
+Qed.
+
+Lemma pow2_pow w : w = 64%N \/ w = 32%N -> pow2 w = (2 ^ w)%N.
+Proof. intros [->| ->]; vm_compute; reflexivity. Qed.
+
+Lemma of_pat_mod w sg p : w = 64%N \/ w = 32%N -> of_pat w sg (p mod pow2 w) = of_pat w sg p.
+Proof. intro Hw. unfold of_pat. rewrite N.mod_mod; [reflexivity|]. destruct Hw as [->| ->]; discriminate. Qed.
+
+Lemma to_pat_of_pat w sg p : w = 64%N \/ w = 32%N -> to_pat w (of_pat w sg p) = (p mod pow2 w)%N.
+Proof.
+  intro Hw. unfold to_pat, of_pat.
+  assert (HP : (0 < pow2 w)%N) by (destruct Hw as [->| ->]; reflexivity).
+  pose proof (N.mod_upper_bound p (pow2 w) ltac:(lia)) as Hq.
+  set (q := (p mod pow2 w)%N) in *.
+  destruct (sg && (pow2 (w - 1) <=? q)%N)%bool.
+  - replace (Z.of_N q - Z.of_N (pow2 w)) with (Z.of_N q + (-1) * Z.of_N (pow2 w)) by lia.
+    rewrite Z_mod_plus_full. rewrite Z.mod_small by lia. lia.
+  - rewrite Z.mod_small by lia. lia.
+Qed.
+
+Lemma varint_loop_S f w sg dlen shift cur idx rest :
+  varint_loop (S f) w sg dlen shift cur idx rest =
+    if (64 <=? shift)%N then VrErr
+    else if dlen <=? idx then VrErr
+    else if idx <? 0 then VrPanic
+    else match rest with
+         | [] => VrPanic
+         | b :: rest' =>
+           let cur' := varint_or w sg cur (b2n b) shift in
+           if (b2n b <? 128)%N then VrOk cur' (wrap64 (idx + 1)) rest'
+           else varint_loop f w sg dlen (shift + 7)%N cur' (wrap64 (idx + 1)) rest'
+         end.
+Proof. reflexivity. Qed.
+
+Lemma varint_loop_spec w sg dlen : w = 64%N \/ w = 32%N -> dlen < Z.of_N two63 ->
+  forall f shift acc cnt rest cur idx,
+   (f <= 10)%nat -> shift = (7 * (10 - N.of_nat f))%N ->
+   to_pat w cur = (acc mod pow2 w)%N ->
+   0 <= idx -> idx + Z.of_nat (length rest) = dlen ->
+   varint_loop (S f) w sg dlen shift cur idx rest =
+   match dec_varint_aux f shift acc cnt rest with
+   | None => VrErr
+   | Some (raw, cnt', rest') => VrOk (of_pat w sg raw) (idx + Z.of_nat (cnt' - cnt)) rest'
+   end.
+Proof.
+  intros Hw Hd. induction f as [|f IH]; intros shift acc cnt rest cur idx Hf Hs Hc Hi Hl; rewrite varint_loop_S.
+  - subst shift. reflexivity.
+  - destruct (N.leb_spec 64 shift) as [H64|_]; [lia|].
+    cbn [dec_varint_aux]. destruct rest as [|b rest'].
+    + cbn [length] in Hl. destruct (Z.leb_spec dlen idx); [reflexivity|lia].
+    + cbn [length] in Hl. destruct (Z.leb_spec dlen idx); [lia|]. destruct (Z.ltb_spec idx 0); [lia|].
+      cbv zeta.
+      assert (Hcur : forall x, of_pat w sg (N.lor (to_pat w cur) (x mod pow2 w)) = of_pat w sg (N.lor acc x)).
+      { intro x. rewrite Hc. rewrite <- (of_pat_mod w sg (N.lor acc x)) by exact Hw.
+        rewrite <- (of_pat_mod w sg (N.lor _ _)) by exact Hw.
+        rewrite (pow2_pow w Hw). rewrite <- lor_mod_pow2. rewrite N.mod_mod by (apply N.pow_nonzero; discriminate). reflexivity. }
+      unfold varint_or. rewrite Hcur.
+      rewrite wrap64_small by (unfold two63 in *; lia).
+      destruct (b2n b <? 128)%N.
+      * f_equal. lia.
+      * rewrite (IH (shift + 7)%N (N.lor acc (N.shiftl (N.land (b2n b) 127) shift)) (S cnt) rest'); try lia.
+        -- destruct (dec_varint_aux f _ _ (S cnt) rest') as [[[raw c'] r']|] eqn:E; [|reflexivity].
+           apply dec_varint_aux_consumes in E. destruct E as (pre & _ & -> & _). f_equal. lia.
+        -- apply to_pat_of_pat. exact Hw.
+Qed.
+
+(* ---------------------------------------------------------------- suffixes of the input by index *)
+Lemma zskipn_nat {A} (k : Z) (l : list A) : 0 <= k <= Z.of_nat (length l) -> zskipn k l = skipn (Z.to_nat k) l.
+Proof.
+  intro H. unfold zskipn. destruct (Z.leb_spec k 0).
+  - replace k with 0 by lia. reflexivity.
+  - destruct (Z.leb_spec (Z.of_nat (length l)) k); [|reflexivity].
+    rewrite skipn_all2 by lia. reflexivity.
+Qed.
+Lemma zfirstn_nat {A} (k : Z) (l : list A) : 0 <= k <= Z.of_nat (length l) -> zfirstn k l = firstn (Z.to_nat k) l.
+Proof.
+  intro H. unfold zfirstn. destruct (Z.leb_spec k 0).
+  - replace k with 0 by lia. reflexivity.
+  - destruct (Z.leb_spec (Z.of_nat (length l)) k); [|reflexivity].
+    rewrite firstn_all2 by lia. reflexivity.
+Qed.
+
+Section Sfx.
+  Variable data : list byte.
+  Let dlen := Z.of_nat (length data).
+  Definition sfx (z : Z) : list byte := skipn (Z.to_nat z) data.
+
+  Lemma sfx_len z : 0 <= z <= dlen -> Z.of_nat (length (sfx z)) = dlen - z.
+  Proof. intro H. unfold sfx. rewrite skipn_length. subst dlen. lia. Qed.
+  Lemma sfx_0 : sfx 0 = data. Proof. reflexivity. Qed.
+  Lemma sfx_skipn z k : 0 <= z -> 0 <= k -> skipn (Z.to_nat k) (sfx z) = sfx (z + k).
+  Proof. intros Hz Hk. unfold sfx. rewrite skipn_skipn'. f_equal. lia. Qed.
+  Lemma sfx_skipn_nat z k : 0 <= z -> skipn k (sfx z) = sfx (z + Z.of_nat k).
+  Proof. intros Hz. rewrite <- sfx_skipn by lia. rewrite Nat2Z.id. reflexivity. Qed.
+  Lemma sfx_zskipn z k : 0 <= z <= dlen -> 0 <= k <= dlen - z -> zskipn k (sfx z) = sfx (z + k).
+  Proof. intros Hz Hk. rewrite zskipn_nat by (rewrite sfx_len; lia). apply sfx_skipn; lia. Qed.
+  Lemma zskipn_data z : 0 <= z <= dlen -> zskipn z data = sfx z.
+  Proof. intro H. rewrite zskipn_nat by (subst dlen; lia). reflexivity. Qed.
+  Lemma sfx_nil z : 0 <= z <= dlen -> (sfx z = [] <-> z = dlen).
+  Proof.
+    intro H. pose proof (sfx_len z H) as Hl. split; intro E.
+    - rewrite E in Hl. cbn in Hl. lia.
+    - destruct (sfx z); [reflexivity|]. cbn [length] in Hl. lia.
+  Qed.
+
+  Lemma dec_varint_sfx z raw m r : 0 <= z <= dlen -> dec_varint (sfx z) = Some (raw, m, r) ->
+    r = sfx (z + Z.of_nat m) /\ (1 <= m)%nat /\ z + Z.of_nat m <= dlen.
+  Proof.
+    intros Hz E. apply dec_varint_consumes in E. destruct E as (pre & Hp & -> & Hl1 & Hl2).
+    assert (r = skipn (length pre) (sfx z)) as Hr.
+    { rewrite Hp. rewrite skipn_app, skipn_all, Nat.sub_diag. reflexivity. }
+    rewrite sfx_skipn_nat in Hr by lia. split; [exact Hr|]. split; [lia|].
+    pose proof (sfx_len z Hz) as Hlen. rewrite Hp, app_length in Hlen. lia.
+  Qed.
+End Sfx.
+
+(* ---------------------------------------------------------------- environments *)
+Lemma env_restore_refl en : env_restore en en = en.
+Proof. unfold env_restore. rewrite Nat.sub_diag. reflexivity. Qed.
+Lemma env_restore_cons en x en' : (length en <= length en')%nat -> env_restore en (x :: en') = env_restore en en'.
+Proof. intro H. unfold env_restore. cbn [length]. replace (S (length en') - length en)%nat with (S (length en' - length en)) by lia. reflexivity. Qed.
+
+(* ---------------------------------------------------------------- slot lists *)
+Lemma set_nth_length {A} (l : list A) : forall i x, length (set_nth l i x) = length l.
+Proof. induction l as [|h t IH]; intros [|i] x; cbn; auto. Qed.
+Lemma nth_error_set_nth {A} (l : list A) : forall i x, (i < length l)%nat -> nth_error (set_nth l i x) i = Some x.
+Proof. induction l as [|h t IH]; intros [|i] x H; cbn in *; try lia; auto. apply IH. lia. Qed.
+Lemma set_nth_set_nth {A} (l : list A) : forall i x y, set_nth (set_nth l i x) i y = set_nth l i y.
+Proof. induction l as [|h t IH]; intros [|i] x y; cbn; auto. rewrite IH. reflexivity. Qed.
+Lemma set_nth_same {A} (l : list A) : forall i x, nth_error l i = Some x -> set_nth l i x = l.
+Proof. induction l as [|h t IH]; intros [|i] x H; cbn in *; try discriminate; [injection H as ->; reflexivity|]. rewrite IH by exact H. reflexivity. Qed.
+Lemma nth_error_nth' {A} (l : list A) i x d : nth_error l i = Some x -> nth i l d = x.
+Proof. revert i. induction l as [|h t IH]; intros [|i] H; cbn in *; try discriminate; [injection H as ->; reflexivity|]. apply IH. exact H. Qed.
+
+Section Exec1.
+  Variable sch : schema.
+  Variable discard : bool.
+  Variable child : child_t.
+  Variable depth : Z.
+  Variable fs : list field.
+  Variable data : list byte.
+  Variable lfuel : nat.
+  Notation dlen := (Z.of_nat (length data)).
+  Hypothesis Hlen : dlen < Z.of_N two63.
+
+  Notation exec' := (exec sch discard child depth fs data dlen lfuel).
+  Notation run' := (run_block sch discard child depth fs data dlen lfuel).
+  Notation cond' := (cond sch discard depth fs data dlen).
+  Notation eval' := (eval sch fs data dlen).
+  Notation eval_int' := (eval_int sch fs data dlen).
+  Notation atom' := (exec_atom sch child fs data dlen).
+  Notation block' := (block sch discard child depth fs data dlen lfuel).
+  Notation sfx' := (sfx data).
+  Notation at_ z ss u := {| us_idx := z; us_rest := sfx data z; us_slots := ss; us_unk := u |}.
+
+  Definition is_atom (s : ustmt) : bool :=
+    match s with UsIf _ _ | UsIfElse _ _ _ | UsFor _ _ | UsSwitch _ _ _ => false | _ => true end.
+
+  Lemma run_atom s b en st : is_atom s = true ->
+    run' (s :: b) en st = match atom' s en st with XNext en' st' => run' b en' st' | r => r end.
+  Proof. intro H. cbn [run_block]. destruct s; try discriminate H; reflexivity. Qed.
+
+  Lemma run_if c body b en st :
+    run' (UsIf c body :: b) en st =
+    xlift (cond' c en st) (fun t => if t then match block' body en st with XNext en' st' => run' b en' st' | r => r end
+                                    else run' b en st).
+  Proof. cbn [run_block]. rewrite exec_if. destruct (cond' c en st) as [[|]| |]; reflexivity. Qed.
+
+  Lemma run_ifelse c a a' b en st :
+    run' (UsIfElse c a a' :: b) en st =
+    xlift (cond' c en st) (fun t => match (if t then block' a en st else block' a' en st) with
+                                    | XNext en' st' => run' b en' st' | r => r end).
+  Proof. cbn [run_block]. rewrite exec_ifelse. destruct (cond' c en st) as [[|]| |]; reflexivity. Qed.
+
+  Lemma run_for c body b en st :
+    run' (UsFor c body :: b) en st =
+    match for_loop sch discard child depth fs data dlen lfuel lfuel c body en st with
+    | XNext en' st' => run' b en' st' | r => r end.
+  Proof. cbn [run_block]. rewrite exec_for. reflexivity. Qed.
+
+  (* `if c { return …, err }` *)
+  Lemma run_if_ret c e b en st : e <> ErNil ->
+    run' (UsIf c (u_ret e) :: b) en st = xlift (cond' c en st) (fun t => if t then XDone Err else run' b en st).
+  Proof.
+    intro He. rewrite run_if. destruct (cond' c en st) as [[|]| |]; cbn [xlift]; try reflexivity.
+    unfold block, u_ret. cbn [run_block exec exec_atom leave]. destruct e; try reflexivity. congruence.
+  Qed.
+
+  (* ---- the state at an index *)
+  Lemma set_idx_at z ss u z' : 0 <= z <= dlen -> 0 <= z' <= dlen ->
+    set_idx data (at_ z ss u) z' = at_ z' ss u.
+  Proof.
+    intros Hz Hz'. unfold set_idx. cbn [us_idx us_rest us_slots us_unk]. f_equal.
+    destruct (Z.leb_spec 0 z); [|lia]. cbn [andb]. destruct (Z.leb_spec z z').
+    - rewrite sfx_zskipn by lia. f_equal. lia.
+    - apply zskipn_data. lia.
+  Qed.
+
+  Lemma suffix_at_at z ss u : suffix_at data (at_ z ss u) z = sfx' z.
+  Proof. unfold suffix_at. cbn [us_idx us_rest]. rewrite Z.eqb_refl. reflexivity. Qed.
+
+  Lemma slice_at z ss u hi : 0 <= z -> z <= hi <= dlen ->
+    slice data dlen (at_ z ss u) z hi = EOk (firstn (Z.to_nat (hi - z)) (sfx' z)).
+  Proof.
+    intros Hz Hh. unfold slice. rewrite suffix_at_at.
+    destruct (Z.leb_spec 0 z); [|lia]. destruct (Z.leb_spec z hi); [|lia]. destruct (Z.leb_spec hi dlen); [|lia].
+    cbn [andb]. rewrite zfirstn_nat by (rewrite sfx_len; lia). reflexivity.
+  Qed.
+
+  Lemma slice_from_at z ss u : 0 <= z <= dlen -> slice_from data dlen (at_ z ss u) z = EOk (sfx' z).
+  Proof.
+    intros Hz. unfold slice_from. rewrite suffix_at_at.
+    destruct (Z.leb_spec 0 z); [|lia]. destruct (Z.leb_spec z dlen); [|lia]. reflexivity.
+  Qed.
+End Exec1.
